@@ -131,6 +131,35 @@ def corruptions(data):
         check('eflr_no_set_component', any(e.rule == 'eflr.no_set_component' for e in s.errors))
 
 
+def reader_is_total(files):
+    """The strict reader never raises: random corruptions (flips, truncations, splices) of well-formed files."""
+    rng = random.Random(99)
+    n = 0
+    for sc, res, data in files[:12]:
+        for _ in range(60):
+            b = bytearray(data)
+            k = rng.random()
+            if k < 0.5:
+                for _ in range(rng.choice([1, 1, 2, 8])):
+                    b[rng.randrange(len(b))] = rng.randrange(256)
+            elif k < 0.7:
+                b = b[:rng.randrange(len(b))]
+            elif k < 0.85:
+                i = rng.randrange(len(b))
+                b[i:i] = rng.randbytes(rng.choice([1, 2, 7]))
+            else:
+                i, j = sorted((rng.randrange(len(b)), rng.randrange(len(b))))
+                del b[i:j]
+            try:
+                f = rp66.decode_file(bytes(b))
+                rp66.summarize(f)
+                n += 1
+            except Exception as e:
+                check('reader_total', False, repr(e))
+                return
+    check('reader_total', n > 0)
+
+
 def make_files(n, seed=7):
     """n fault-free files from the metadata-rich generator (+ their scenarios)."""
     out = []
@@ -212,6 +241,7 @@ def main():
             small_mrl = data
             break
     corruptions(small_mrl or big)
+    reader_is_total(files)
     n = dlisio_agreement(files)
     projection_identity(files)
     print('ORACLE-SELFTEST golden vectors ok; %d files cross-checked with dlisio; corruptions rejected; projection identity ok; '
